@@ -8,6 +8,7 @@ import (
 	stdhtml "html"
 	"io"
 	"os"
+	"sort"
 	"strings"
 	"sync"
 
@@ -229,4 +230,13 @@ func WalksBreadthFirst(root *treeNode) []string {
 		pending = append(pending, n.kids...)
 	}
 	return out
+}
+
+// SortsCallerSlice violates R3.8 INPUT-READONLY: the caller's slice is reordered.
+func SortsCallerSlice(xs []int) int {
+	sort.Ints(xs)
+	if len(xs) == 0 {
+		return 0
+	}
+	return xs[0]
 }
